@@ -110,8 +110,10 @@ def jwe_json_eps(j, key, allow, sender=None):
 # --------------------------------------------------------------------------------------
 # value pools
 
-JSON_VALUES = list(JSON_TYPE_VALUES.values()) + ["é", "\u0000", "A" * 5000, -0.0, 1e308, [[[[[]]]]], {"a": {"b": {"c": []}}}, [None], [{}], 2**64, -2**63, "=", "AA==", "A", "+/"]
-P2C_VALUES = [-1, 0, 1, 2, 99, 1000, 100000, 2**31 - 1, 2**31, 2**32, 2**63 - 1, 2**63, 2**64, 10**30, -2**31, 1.5, True, "1000", None, [1], {}]
+JSON_VALUES = list(JSON_TYPE_VALUES.values()) + ["é", "\u0000", "A" * 5000, -0.0, 1e308, [[[[[]]]]], {"a": {"b": {"c": []}}}, [None], [{}], 2**64, -2**63, "=", "AA==", "A", "+/",
+                                                   float("inf"), float("-inf"), float("nan"), 2048.0, -1.0, 2**1024, 10**400]   # 1e999 / Infinity / NaN as Python's json reads them
+P2C_VALUES = [-1, 0, 1, 2, 99, 1000, 100000, 2**31 - 1, 2**31, 2**32, 2**63 - 1, 2**63, 2**64, 10**30, -2**31, 1.5, True, "1000", None, [1], {},
+              1000.0, 4096.0, float("inf"), float("-inf"), float("nan"), 1e308, -1e308, 2**1024, 0.0, -0.0]
 P2C_SLOW = {2**31 - 1}   # excluded: slow, not wrong
 
 
